@@ -45,32 +45,44 @@ def reSub (m : Str → Option (Str × Nat)) : Nat → Str → Str
 
 /-- `(\d),(\d)` → `\1.\2` -/
 def mComma : Str → Option (Str × Nat)
-  | a :: ',' :: b :: _ => if isUDigit a && isUDigit b then some ([a, '.', b], 2) else none
+  | a :: p :: b :: _ => if p == ',' && isUDigit a && isUDigit b then some ([a, '.', b], 2) else none
   | _ => none
 
 /-- `(\d)-(\d)` → `\1 -\2` -/
 def mHyphen : Str → Option (Str × Nat)
-  | a :: '-' :: b :: _ => if isUDigit a && isUDigit b then some ([a, ' ', '-', b], 2) else none
+  | a :: p :: b :: _ => if p == '-' && isUDigit a && isUDigit b then some ([a, ' ', '-', b], 2) else none
   | _ => none
 
-/-- length of a match of `-?\d*\.\d*\.\d*` at the head (the regex has no backtracking choice that can succeed
-differently: every `\d*` must take the whole digit run because a literal `.` follows) -/
-def mDotAlt1 (s : Str) : Option Nat :=
-  let neg := match s with | '-' :: _ => 1 | _ => 0
-  let s1 := s.drop neg
-  let d1 := (s1.takeWhile isUDigit).length
-  match s1.dropWhile isUDigit with
-  | '.' :: s3 =>
-    let d2 := (s3.takeWhile isUDigit).length
-    match s3.dropWhile isUDigit with
-    | '.' :: s5 => some (neg + d1 + 1 + d2 + 1 + (s5.takeWhile isUDigit).length)
-    | _ => none
-  | _ => none
+/-- `\d*\.` at the head: the number of digits and the text after the dot (the digit run must be taken whole because a
+literal `.` follows, so the regex has no other way to match) -/
+def digitsThenDot : Str → Option (Nat × Str)
+  | [] => none
+  | c :: cs =>
+    if c == '.' then some (0, cs)
+    else if isUDigit c then (digitsThenDot cs).map (fun nr => (nr.1 + 1, nr.2))
+    else none
+
+/-- `\d*\.\d*\.\d*` at the head, after `neg` characters of sign: the length of the whole match -/
+def dotTail (neg : Nat) (s : Str) : Option Nat :=
+  match digitsThenDot s with
+  | some (d1, s3) =>
+    match digitsThenDot s3 with
+    | some (d2, s5) => some (neg + d1 + 1 + d2 + 1 + (s5.takeWhile isUDigit).length)
+    | none => none
+  | none => none
+
+/-- length of a match of `-?\d*\.\d*\.\d*` at the head (a leading `-` must be consumed: without it the match would have to
+start with a digit or a dot) -/
+def mDotAlt1 : Str → Option Nat
+  | [] => none
+  | c :: cs => if c == '-' then dotTail 1 cs else dotTail 0 (c :: cs)
 
 /-- length of a match of `NaN[\.-]\d+` at the head -/
 def mDotAlt2 : Str → Option Nat
-  | 'N' :: 'a' :: 'N' :: p :: d :: rest =>
-    if (p == '.' || p == '-') && isUDigit d then some (5 + (rest.takeWhile isUDigit).length) else none
+  | c1 :: c2 :: c3 :: p :: d :: rest =>
+    if c1 == 'N' && c2 == 'a' && c3 == 'N' && (p == '.' || p == '-') && isUDigit d then
+      some (5 + (rest.takeWhile isUDigit).length)
+    else none
   | _ => none
 
 def nanNan : Str := " NaN NaN ".toList
